@@ -137,3 +137,12 @@ func HashStr(s string) string {
 	}
 	return strconv.FormatUint(h, 10)
 }
+
+// CDeps prints Integration.Dependencies of every integration, in order.
+func CDeps(igs []shconfig.Integration) string {
+	var out []string
+	for _, g := range igs {
+		out = append(out, CStrs(g.Dependencies))
+	}
+	return "[" + strings.Join(out, "; ") + "]"
+}
